@@ -38,6 +38,7 @@ import (
 	"go/constant"
 	"go/printer"
 	"go/types"
+	"os"
 	"reflect"
 	"sort"
 	"strings"
@@ -53,6 +54,36 @@ const (
 	hyCorePkg   = "github.com/yandex/pandora/core/config"
 	hyPlugPkg   = "github.com/yandex/pandora/core/plugin/pluginconfig"
 )
+
+// hclyamlLoad: the packages the area reads besides scenario/config are loaded ONCE, together (one type-check of the
+// shared dependency closure instead of ten: 21 s -> a few seconds of every check)
+var hclyamlPkgs map[string]*packages.Package
+
+func hclyamlLoad(pkgPath string) *packages.Package {
+	if hclyamlPkgs == nil {
+		hclyamlPkgs = map[string]*packages.Package{}
+		cfg := &packages.Config{Mode: packages.NeedName | packages.NeedSyntax | packages.NeedTypes | packages.NeedTypesInfo |
+			packages.NeedFiles | packages.NeedImports | packages.NeedDeps, Dir: repo, BuildFlags: []string{"-tags=verif"}}
+		pkgs, err := packages.Load(cfg, hyImportPkg, hyHTTPPkg, hyGRPCPkg, hyCorePkg, hyPlugPkg)
+		if err != nil {
+			fmt.Fprintln(os.Stderr, "load:", err)
+			os.Exit(1)
+		}
+		for _, p := range pkgs {
+			if len(p.Errors) > 0 {
+				fmt.Fprintln(os.Stderr, "load errors:", p.Errors)
+				os.Exit(1)
+			}
+			hclyamlPkgs[p.PkgPath] = p
+		}
+	}
+	if p, ok := hclyamlPkgs[pkgPath]; ok {
+		return p
+	}
+	p := load(pkgPath)
+	hclyamlPkgs[pkgPath] = p
+	return p
+}
 
 func init() {
 	areas["hclyaml"] = area{
@@ -381,7 +412,7 @@ func hclYamlExtra(t *tr) string {
 	}
 
 	// ---- 3. plugin registry of scenario/import.Import
-	ip := load(hyImportPkg)
+	ip := hclyamlLoad(hyImportPkg)
 	// helper name -> interface it registers for:  func RegisterX(...) { var ptr *I; register.RegisterPtr(ptr, name, ...) }
 	helperIface := map[string]string{}
 	for _, f := range ip.Syntax {
@@ -505,8 +536,8 @@ func hclYamlExtra(t *tr) string {
 			}
 		}
 	}
-	scan(load(hyHTTPPkg), "")
-	scan(load(hyGRPCPkg), "")
+	scan(hclyamlLoad(hyHTTPPkg), "")
+	scan(hclyamlLoad(hyGRPCPkg), "")
 	scan(p, "ExtractVariableStorage")
 	var readL []string
 	for k := range read {
@@ -588,7 +619,7 @@ func hclYamlExtra(t *tr) string {
 	}
 
 	// ---- 7. decoder flags of core/config and the plugin name key
-	cp := load(hyCorePkg)
+	cp := hclyamlLoad(hyCorePkg)
 	flags := map[string]string{}
 	if fd := findFunc(cp, "newDecoderConfig"); fd == nil {
 		g.fail("core/config.newDecoderConfig not found")
@@ -622,7 +653,7 @@ func hclYamlExtra(t *tr) string {
 			}
 		}
 	}
-	pp := load(hyPlugPkg)
+	pp := hclyamlLoad(hyPlugPkg)
 	nameKey := `""`
 	if c, ok := pp.Types.Scope().Lookup("PluginNameKey").(*types.Const); ok && c.Val().Kind() == constant.String {
 		nameKey = fmt.Sprintf("%q", constant.StringVal(c.Val()))
@@ -1032,8 +1063,8 @@ func hyNilTests(g *hyGen, p *packages.Package) string {
 			}
 		}
 	}
-	scan(load(hyHTTPPkg), "")
-	scan(load(hyGRPCPkg), "")
+	scan(hclyamlLoad(hyHTTPPkg), "")
+	scan(hclyamlLoad(hyGRPCPkg), "")
 	scan(p, "decode.go")
 	scan(p, "config.go")
 	sort.Strings(rows)
